@@ -453,6 +453,11 @@ def fields(s):
 
 
 def agree(case, i, ia, ma):
+    if case["kind"] == "scan" and "trunc" in case["layout"] and len(case["program"]) > 1:
+        flags = {}
+        scan_judge(case, ia, flags)
+        if flags.get("unsorted"):
+            return True  # a time looked up among frame times that are not in order: outside the model's searchsorted
     if ia.startswith("empty "):
         return ma == "empty"  # the model says "empty"; the images an empty object hands out are judged by the oracle
     fi, fm = fields(ia), fields(ma)
@@ -678,12 +683,25 @@ def oracle(case, ia):
         elif not (got_pt[0].isdigit() and abs(Fraction(got_pt) * 10**9 - want_pt) <= Fraction(1, 10**9) * want_pt):
             return f"pixel_time_seconds {got_pt} s but the source's pixels are {case['layout']['k'] * case['dt']} ns long and {pf_total} of them were binned"
         return None
-    # scan
+    return scan_judge(case, ans, {})
+
+
+def scan_judge(case, ans, flags):
+    """the oracle for scans.  flags["unsorted"] is set when a timestamp / time string was looked up on a view whose frame
+    starts or stops are not in order (a crop left only never-recorded, zero-padded pixels at [0,0] / in the whole of an
+    unfinished last frame): what "the frames in the window" means is then open, nothing is judged and the model (whose
+    searchsorted is specified for sorted lists, NumPy's bisection is not) is not compared either"""
     frames = scan_reference(case)
     cur = [np.array([[p[0] for p in row] for row in f], dtype=np.int64) for f in frames]
     tmin = [np.array([[p[1] for p in row] for row in f], dtype=np.int64) for f in frames]
     tmax = [np.array([[p[2] for p in row] for row in f], dtype=np.int64) for f in frames]
     status = "view"
+
+    def lookup_ranges(tmin, tmax):
+        r = rng_of(tmin, tmax)
+        if any(r[i][c] > r[i + 1][c] for i in range(len(r) - 1) for c in (0, 1)):
+            flags["unsorted"] = True
+        return r
 
     def rng_of(tmin, tmax):
         # a frame is exposed from its first pixel to one sample period past the latest sample of any of its pixels (the
@@ -707,8 +725,12 @@ def oracle(case, ia):
                     status = "IndexError"
                     break
             else:
-                r = rng_of(tmin, tmax)
+                r = None
                 idx = []
+                if any(isinstance(b, str) or (isinstance(b, int) and b >= FIRST_TS) for b in (fi[1], fi[2])):
+                    lookup_ranges(tmin, tmax)  # (a string may still resolve to a frame index: abstaining is the safe side)
+                    if flags.get("unsorted"):
+                        return None
                 for bnd, col in ((fi[1], 0), (fi[2], 1)):
                     if isinstance(bnd, list):
                         status = "IndexError"  # slicing by a list is not supported (the start bound is read first)
@@ -721,7 +743,10 @@ def oracle(case, ia):
                     if bnd is None or bnd < FIRST_TS:
                         idx.append(bnd)
                     else:
+                        r = r or lookup_ranges(tmin, tmax)
                         idx.append(int(np.searchsorted([x[col] for x in r], bnd)))
+                if flags.get("unsorted"):
+                    return None
                 if status != "view":
                     break
                 sel = list(range(len(cur)))[idx[0] : idx[1]]
@@ -749,7 +774,9 @@ def oracle(case, ia):
                 a = b = None
                 xs, ys = slice(op[1], op[2]), slice(op[3], op[4])
             else:
-                r = rng_of(tmin, tmax)
+                r = rng_of(tmin, tmax) if op[1] is None and op[2] is None else lookup_ranges(tmin, tmax)
+                if flags.get("unsorted"):
+                    return None
                 a = None if op[1] is None else int(np.searchsorted([x[0] for x in r], op[1]))
                 b = None if op[2] is None else int(np.searchsorted([x[1] for x in r], op[2]))
                 ys = xs = slice(None)
@@ -1066,6 +1093,12 @@ def cases(tier, rng):
     yield dict(base, stream="corpus", program=[["kbp", "3/4"], ["kbp", "6"]])
     yield dict(base, stream="corpus", program=[["kbp", "3/4"], ["down", 1, 2], ["kbp", "6"]])
     yield dict(base, stream="corpus", program=[["crop", "1/8", "3/8"], ["kbp", "3/4"], ["flip"]])
+    # round H (thorough, seed 0): a crop leaves only never-recorded pixels of the unfinished last frame, then a time string is
+    # looked up among frame starts [t, 0] that are not in order (NumPy bisects, the model counts): not judged, not compared
+    yield dict(scan_case(4, 3, 2, 2, 0, 0, 1, 2, 1, unfinished=(3, 0)), stream="corpus",
+               program=[["cropxy", -1, None, -1, None], ["get", ["s", "12800ns", bc.START + 742400], [["s", 5, None]]]])
+    yield dict(scan_case(3, 2, 3, 2, 0, 0, 2, 0, 1, unfinished=(3, 0)), stream="corpus",
+               program=[["slice", 1, None, 1, None, None, None, "tuple"], ["get", ["s", "-307200ns", "12us 800ns"], []]])
     # ---- exhaustive small scope: all programs of length <= 2 over the alphabet on fixed small objects
     kobjs = [kymo_case(3, 4, 2, 1, 2), kymo_case(4, 3, 1, 0, 1, trunc_pixels=2, pixel_nm=250.0)]
     if not quick:
@@ -1124,7 +1157,11 @@ def cases(tier, rng):
             yield dict(obj, stream="small-scope", program=[o])
         items = [o for o in alpha if o[0] == "get"]
         alpha2 = [o for o in alpha if o[0] != "get"] + r2.sample(items, min(len(items), 10))
-        a1 = alpha2 if not light else r2.sample(alpha, min(len(alpha), 40 if oi < n_full else 15))
+        if not light:  # thorough: every first op, but of the (hundreds of) timestamp windows a sample
+            tw = [o for o in alpha2 if o[0] == "slicet"]
+            a1 = [o for o in alpha2 if o[0] != "slicet"] + r2.sample(tw, min(len(tw), 170))
+        else:
+            a1 = r2.sample(alpha, min(len(alpha), 40 if oi < n_full else 15))
         a2 = alpha2 if not light else r2.sample(alpha, min(len(alpha), 25 if oi < n_full else 12))
         for o1, o2 in itertools.product(a1, a2):
             # timestamps of the second op must be drawn for the derived object; keep index/slice/crop ops only
